@@ -235,4 +235,23 @@ Proof.
     apply Qle_shift_div_l; [lra|]. rewrite Qmult_0_l. apply Qabs_nonneg.
 Qed.
 
+(** the shape of the whole list: exactly [k] full-length steps, then at most one remainder step, which is
+    strictly shorter than a full step and not shorter than 1e-9 (so the move is never cut into many
+    small pieces, and the remainder is never applied twice) *)
+Lemma steps_shape : exists tail,
+  qsteps max_dt cur out = repeat m (Z.to_nat k) ++ tail /\
+  Qabs m == max_dt /\ (length tail <= 1)%nat /\
+  (forall d, In d tail -> d == r /\ eps <= Qabs d /\ Qabs d < max_dt).
+Proof.
+  unfold qsteps. fold m k r. destruct (Qle_bool eps (Qabs r)) eqn:E.
+  - exists [r]. split; [reflexivity|]. split; [apply m_abs|]. split; [simpl; lia|].
+    intros d [<-|[]]. split; [reflexivity|]. split; [apply Qle_bool_iff; exact E|apply rem_bound].
+  - exists []. split; [reflexivity|]. split; [apply m_abs|]. split; [simpl; lia|]. intros d [].
+Qed.
+
+Lemma steps_length : (length (qsteps max_dt cur out) <= Z.to_nat k + 1)%nat.
+Proof.
+  destruct steps_shape as [tail [-> [_ [Hl _]]]]. rewrite app_length, repeat_length. lia.
+Qed.
+
 End Facts.
